@@ -6,6 +6,7 @@
 -/
 import CircuitModel.Conc.RC
 import CircuitModel.Conc.Gauge
+import CircuitModel.Conc.Trans
 import CircuitModel.Basic
 namespace CM
 open Conc
@@ -144,5 +145,76 @@ def suiteTrGauge (kvs : List (String × String)) (lines : List (String × String
   let fb := TrGauge.conform { gauge := "c.concurrentFallbacks", limit := "c.threadSafeConfig.Fallback.MaxConcurrentRequests", marker := "in-fallback" }
     (Conc.Gauge.init (kvInt kvs "fbmc" 10) k) ls
   (run.zip fb).map fun (a, b) => (if a == "skip" then b else a) ++ "\t-"
+
+end CM
+
+/-! ### trans -/
+namespace CM
+open Conc
+namespace TrTrans
+open Conc.Trans
+
+def mu := "c.transitionMu"
+def fo := "c.threadSafeConfig.CircuitBreaker.ForceOpen"
+def fc := "c.threadSafeConfig.CircuitBreaker.ForcedClosed"
+
+/-- the step the model expects from the lock holder, in the trace's text form; `none` = a silent model step
+    (the ShouldClose call has no scheduling point of its own) -/
+def expected (s : Shared) (l : Local) : Option String :=
+  match l.pc with
+  | .start => some s!"lock {mu}"
+  | .guard1 => some s!"load {fc} -> {s.forcedClosed}"
+  | .isOpenFO => some s!"load {fo} -> {s.forceOpen}"
+  | .isOpenFC => some s!"load {fc} -> {s.forcedClosed}"
+  | .isOpenFlag => some s!"load c.isOpen -> {s.isOpen}"
+  | .guard2 => some s!"load {fo} -> {s.forceOpen}"
+  | .decide => none
+  | .notify => some (match l.job with | .open => "deliver-opened" | .close _ _ => "deliver-closed")
+  | .store => some s!"store c.isOpen {match l.job with | .open => true | .close _ _ => false}"
+  | .unlock => some s!"unlock {mu}"
+  | .done => none
+
+def advanceSilent (c : Config Shared Local) (tid : Nat) : Config Shared Local :=
+  match c.locals[tid]? with
+  | some l => if l.pc == .decide then
+      (match step tid c.shared l with
+       | some (s', l') => { shared := s', locals := c.locals.set tid l' }
+       | none => c)
+    else c
+  | none => c
+
+/-- only the steps a thread takes while it holds (or acquires) the transition mutex belong to the model -/
+def conform (c : Config Shared Local) : List String → List String
+  | [] => []
+  | line :: rest =>
+    match line.splitOn " " with
+    | tidS :: toks =>
+      let body := " ".intercalate toks
+      match tidS.toNat? with
+      | none => "bad-line" :: conform c rest
+      | some tid =>
+        let holds := c.shared.holder == some tid
+        if !holds && body != s!"lock {mu}" then "skip" :: conform c rest else
+        let c := advanceSilent c tid
+        match c.locals[tid]? with
+        | none => s!"MISMATCH no such thread {tid}" :: conform c rest
+        | some l =>
+          match expected c.shared l with
+          | none => s!"MISMATCH model expects nothing from thread {tid} but the code did: {body}" :: conform c rest
+          | some e =>
+            if e != body then s!"MISMATCH thread {tid}: model expects [{e}] code did [{body}]" :: conform c rest
+            else match step tid c.shared l with
+              | some (s', l') => "ok" :: conform { shared := s', locals := c.locals.set tid l' } rest
+              | none => "MISMATCH model step disabled" :: conform c rest
+    | _ => "bad-line" :: conform c rest
+
+end TrTrans
+
+/-- header: init=(0|1) ops=<one letter per thread: O C F S>; F = failing call (opens if it gets there), S = succeeding
+    probe whose closer says ShouldClose -/
+def suiteTrTrans (kvs : List (String × String)) (lines : List (String × String)) : List String :=
+  let jobs : List Conc.Trans.Job := ((kvGet kvs "ops").getD "").toList.map fun ch =>
+    if ch == 'O' || ch == 'F' then .open else if ch == 'C' then .close true false else .close false true
+  (TrTrans.conform (Conc.Trans.init false false (kvBool kvs "init" false) jobs) (lines.map (·.1))).map fun r => r ++ "\t-"
 
 end CM
